@@ -28,9 +28,11 @@ Pairs (base = all features on, interface logging, payload int, limit 4):
    payload2/3      identical (the scripted payload value is carried by every payload type)
    util0           shapes without utility strategies, skip: utility   (no utilize/randomize requests)
    limit8          compared per scenario, scenarios in which the base run hit SUBSTITUTION_LIMIT are exempt
-   plans0 is NOT compared: with plans compiled out the scripted callbacks cannot succeed/fail/plan, so they
-   draw different numbers — the feature changes what the program *is* (Props/C15 proves the model-side
-   statement `plans_unused_updatePlans_inert` instead).
+   plans0          drop PL=/PX=/TS=/TF= of snaps; both builds run with $VH_NOPLANUSE (the callbacks of the
+                   plans-on build then draw exactly what the plans-off build draws and never touch plans or
+                   task status) and skip task/planappend/planclear: "plans compiled in but unused ≡ compiled
+                   out" on the real code (model side: Props/C15 `plans_unused_*`)
+   …_bottomup1 / …_manual1   the same pair with the base configuration bottom-up / manually activated
 """
 from __future__ import annotations
 import os, sys, re, json, time, shutil, subprocess, concurrent.futures as cf
@@ -51,14 +53,14 @@ def join_check():
     shutil.rmtree(work, ignore_errors=True)
     try:
         os.makedirs(os.path.join(work, 'include', 'hfsm2'))
-        shutil.copytree(os.path.join(V.REPO, 'development'), os.path.join(work, 'development'))
+        shutil.copytree(os.path.join(V.src_root(), 'development'), os.path.join(work, 'development'))
         os.makedirs(os.path.join(work, 'tools'))
-        shutil.copy(os.path.join(V.REPO, 'tools', 'join.py'), os.path.join(work, 'tools', 'join.py'))
+        shutil.copy(os.path.join(V.src_root(), 'tools', 'join.py'), os.path.join(work, 'tools', 'join.py'))
         st, out, err = V.sh([sys.executable, 'join.py'], cwd=os.path.join(work, 'tools'), timeout=300)
         if st != 0:
             return False, 'tools/join.py failed (%d): %s' % (st, (err or out)[-600:])
         a = open(os.path.join(work, 'include', 'hfsm2', 'machine.hpp'), 'rb').read()
-        b = open(os.path.join(V.REPO, 'include', 'hfsm2', 'machine.hpp'), 'rb').read()
+        b = open(os.path.join(V.src_root(), 'include', 'hfsm2', 'machine.hpp'), 'rb').read()
         if a == b:
             return True, 'join.py(development) == include/hfsm2/machine.hpp (%d bytes)' % len(b)
         la, lb = a.split(b'\n'), b.split(b'\n')
@@ -93,12 +95,13 @@ def has_utility(shape):
 
 
 # variant name -> (config overrides, base overrides, $VH_SKIP, projection name, needs shape without utility)
-VARIANTS_QUICK = ['log0', 'log2', 'struct0', 'history0', 'dev1']
-VARIANTS_THOROUGH = VARIANTS_QUICK + ['serial0', 'payload2', 'payload3', 'util0', 'limit8', 'log0_dev1', 'struct0_history0_serial0']
+VARIANTS_QUICK = ['log0', 'log2', 'struct0', 'history0', 'dev1', 'plans0', 'plans0_bottomup1']
+VARIANTS_THOROUGH = VARIANTS_QUICK + ['serial0', 'payload2', 'payload3', 'util0', 'limit8', 'log0_dev1', 'struct0_history0_serial0',
+                                     'plans0_manual1', 'plans0_log2', 'serial0_bottomup1', 'history0_bottomup1_manual1']
 
 
 def variant(name):
-    v = dict(cfg={}, base={}, skip='', proj=set(), noutil=False, per_scenario_exempt=None)
+    v = dict(cfg={}, base={}, skip='', proj=set(), noutil=False, per_scenario_exempt=None, env={})
     for part in name.split('_'):
         if part == 'log0':
             v['cfg']['log'] = 0; v['proj'].add('log')
@@ -118,6 +121,14 @@ def variant(name):
             v['cfg']['payload'] = int(part[-1])
         elif part == 'util0':
             v['cfg']['util'] = 0; v['skip'] += ',utility'; v['noutil'] = True
+        elif part == 'plans0':
+            # both builds run with $VH_NOPLANUSE: the plans-on build's callbacks draw what the plans-off build draws
+            # and never touch plans or task status; plan operations of the API are skipped by both
+            v['cfg']['plans'] = 0; v['skip'] += ',task,planappend,planclear'; v['proj'].add('plans'); v['env']['VH_NOPLANUSE'] = '1'
+        elif part == 'bottomup1':
+            v['base']['bottomup'] = 1
+        elif part == 'manual1':
+            v['base']['manual'] = 1
         elif part == 'limit8':
             v['cfg']['limit'] = 8; v['per_scenario_exempt'] = 'limit'
         else:
@@ -140,6 +151,8 @@ def project(lines, proj):
                 t = [x for x in t if not (x.startswith('ST=') or x.startswith('H='))]
             if 'history' in proj:
                 t = [x for x in t if not (x.startswith('P=') or x.startswith('L='))]
+            if 'plans' in proj:
+                t = [x for x in t if not (x.startswith('PL=') or x.startswith('PX=') or x.startswith('TS=') or x.startswith('TF='))]
             l = ' '.join(t)
         if 'assertloc' in proj and l.startswith('assert '):
             l = 'assert'
@@ -191,8 +204,10 @@ def _build(job):
 
 
 def _run(job):
-    tag, exe, seed, scen, ops, skip, out = job
+    tag, exe, seed, scen, ops, skip, out = job[:7]
     env = dict(os.environ)
+    env.pop('VH_NOPLANUSE', None)
+    env.update(job[7] if len(job) > 7 else {})
     env['VH_SKIP'] = skip or 'none'
     with open(out, 'wb') as f:
         try:
@@ -215,7 +230,7 @@ def run(tier, seed):
             'configuration pairs of this run only',
             'two builds are compared on the observables they have in common; the scripted callbacks share one seeded '
             'generator, so any influence of the toggled feature on which callbacks run desynchronises the rest of the run',
-            'plans on/off is not compared (the scripted program itself differs); see Props/C15.plans_unused_updatePlans_inert'])
+            'plans on/off is compared for programs that never use plans (VH_NOPLANUSE); a program that uses plans has no plans-off counterpart'])
         ok, msg = join_check()
         res['coverage']['join'] = msg
         if not ok:
@@ -246,9 +261,9 @@ def run(tier, seed):
                     btag = 's%d_%s' % (si, '_'.join('%s%d' % kv for kv in sorted(cfg.items())))
                     if btag not in builds:
                         builds[btag] = (btag, E.emit(sh, cfg), flags, bool(cfg.get('dev')))
-                    rtag = '%s__%s' % (btag, v['skip'] or 'none')
+                    rtag = '%s__%s%s' % (btag, v['skip'] or 'none', ''.join('_' + k for k in sorted(v['env'])))
                     tags.append(rtag)
-                    runs.append((rtag, btag, v['skip']))
+                    runs.append((rtag, btag, v['skip'], v['env']))
                 pairs.append((si, name, tags[0], tags[1], cfg_b, cfg_v, v))
         with cf.ThreadPoolExecutor(max_workers=V.JOBS) as ex:
             built = {tag: (exe, err) for tag, exe, err, dt, cached in ex.map(_build, list(builds.values()))}
@@ -258,9 +273,9 @@ def run(tier, seed):
                 res['rejections'].append(dict(tag='compile', what='configuration %s does not compile against the current header: %s'
                                               % (tag, err[-500:]), replay='build tag %s\n%s' % (tag, err[-1500:])))
         todo = {}
-        for rtag, btag, skip in runs:
+        for rtag, btag, skip, renv in runs:
             if rtag not in todo and built.get(btag, (None,))[0]:
-                todo[rtag] = (rtag, built[btag][0], seed, scen, ops, skip, os.path.join(trdir, rtag + '.txt'))
+                todo[rtag] = (rtag, built[btag][0], seed, scen, ops, skip, os.path.join(trdir, rtag + '.txt'), renv)
         with cf.ThreadPoolExecutor(max_workers=V.JOBS) as ex:
             done = {tag: (st, err) for tag, st, err in ex.map(_run, list(todo.values()))}
         compared = scenarios_compared = exempt = lines_compared = 0
